@@ -265,9 +265,9 @@ Lemma Inv_U_step_A : forall cfg s,
 Proof.
   intros cfg s Hlu Hll H. unfold step_A, ret, note_head, v_next.
   destruct (a_pc s) eqn:Epc; auto.
-  - (* S0 *) u_other s Epc H.
-  - (* S1 *) u_other s Epc H.
-  - (* S2 *) u_other s Epc H.
+  - (* S0 *) split_match; u_other s Epc H.
+  - (* S1 *) split_match; u_other s Epc H.
+  - (* S2 *) split_match; first [u_other s Epc H | u_fin cfg s Epc H].
   - (* W0 *) u_other s Epc H.
   - (* W1 *) u_other s Epc H.
   - (* W2 *) split_match; auto; u_other s Epc H.
@@ -284,7 +284,7 @@ Proof.
     destruct (pstep_frame_U cfg p m s) as (E1 & E2 & E3 & E4 & E5 & E6 & E7 & E8 & _).
     destruct (snd (pstep cfg p m s)); [| |u_other s Epc H]; split_match;
       (apply (Inv_U_other s); cbn; auto; try (rewrite Epc; reflexivity)).
-  - (* V3 *) u_other s Epc H.
+  - (* V3 *) split_match; first [u_other s Epc H | u_fin cfg s Epc H].
   - (* L1: the holding queue is cleared, then the flag is set *)
     rewrite Hll. destruct H as [Heq Hem Hput Hreld Hlk Hex Hul Hd Hdr].
     unfold Ulock in Hul. rewrite Epc in Hul. destruct Hul as (Hh & Hf & Hw).
